@@ -580,7 +580,7 @@ structure SockO where
   self : Blk
   fd : Option Nat
   kind : Nat          -- 0 tcp, 1 udp
-  state : Nat         -- 0 fresh, 1 bound / listening, 2 connected, 3 closed
+  state : Nat         -- 0 fresh, 1 bound / listening, 2 connected, 3 closed, 4 after a refused connect
   pending : Nat       -- connections waiting in the accept queue
   deriving Repr
 
@@ -618,7 +618,7 @@ def sockConnectRefused (s : SockO) (e : EP) : ResM (Char × SockO × EP) := do
   let some a ← malloc | return ('F', s, e)
   let e' ← setErr e
   freeB a
-  return ('F', s, e')
+  return ('F', { s with state := 4 }, e')
 
 /-- `p_socket_accept` with a time-out: times out when nobody is waiting -/
 def sockAccept (s : SockO) (e : EP) : ResM (Char × SockO × Option SockO × EP) := do
